@@ -18,7 +18,7 @@ PLAN = dict(
     level_note=NOTE_BASE,
     runs=[
         dict(name="conc", run="^(TestConcPolicy|TestConcCacheable)$", checks=(40, 2000), shards=(2, 8), timeout=(400, 3600), race=True),
-        dict(name="grid", run="^(TestGrid|TestCorpus)$", timeout=(300, 3600)),
+        dict(name="grid", run="^(TestGrid|TestDoors|TestCorpus)$", timeout=(300, 3600)),
         dict(name="policy", run="^TestPropPolicy$", checks=(4000, 500000), shards=(1, 16), timeout=(300, 3600)),
         dict(name="cacheable", run="^TestPropCacheable$", checks=(20000, 1000000), shards=(1, 4), timeout=(300, 3600)),
     ],
